@@ -43,12 +43,14 @@ FIELD_MENU = [
     ['predecessors'],
 ]
 DEFAULT_FIELDS = ['id', 'name', 'resource', 'estimate', 'spent', 'start', 'end', 'predecessors']
-THEMES = [None, {'header_color': '92m', 'level_colors': ['93m']}, {'level_colors': []}]
+THEMES = [None, {'header_color': '92m', 'level_colors': ['93m']}, {'level_colors': []},
+          {'header_color': None, 'level_colors': [None, '93m']}]
 
 
 # (field selection, children shown, theme, entry point): every value of every dimension occurs, not the full product
 SCENARIOS = [(0, True, 0, 0), (1, True, 1, 0), (2, False, 0, 1), (3, True, 0, 0), (3, False, 2, 2), (4, True, 0, 3),
-             (5, True, 1, 1), (1, False, 2, 3), (2, True, 0, 2), (4, False, 1, 0), (0, True, 2, 1), (3, True, 1, 3)]
+             (5, True, 1, 1), (1, False, 2, 3), (2, True, 0, 2), (4, False, 1, 0), (0, True, 2, 1), (3, True, 1, 3),
+             (1, True, 3, 0), (3, True, 3, 2)]
 
 
 def strip_codes(raw):
@@ -209,6 +211,8 @@ def h(cfg):
             if cells and cells[-1] == '':
                 cells = cells[:-1]
             table.append([strip_codes(c) for c in cells])
+        if any(ESC not in ln for ln in lines):
+            return  # monochrome rows have no cell separators: only the line widths (checked above) are observable
         ok_shape = all(len(r) == len(eff_fields) for r in table)
         check(ok_shape, 'C20 task sheet: a line does not have one cell per field', detail=str([len(r) for r in table]))
         if not ok_shape:
@@ -219,9 +223,6 @@ def h(cfg):
             for r in range(1, len(table)):
                 items.append((xlen(table[r][c]) == w0, 'C20 task sheet: column not aligned', eff_fields[c]))
         check_all(items)
-        # header
-        for c, f in enumerate(eff_fields):
-            check(table[0][c].startswith(' ' + f.upper() + ' '), 'C20 header cell', detail=f)
         # content of the structural columns, in depth-first order
         rel = []
         for r0 in shown_roots:
